@@ -449,6 +449,43 @@ def main():
                           {"kind": "impl-vs-spec", "format": open(os.path.join(d, "format")).read(), "script": sc[13:17], "got": r[16], "want": "get 4 0 11 12 3 4"})
     else:
         derived_bad.append(("harness", "derived-write script failed: " + out[-300:]))
+    # generated MPLEX write-through: any pair of sample rates, any index contents; oracle = the read formula
+    # (sample i of the data field changes iff index[floor(i*spf2/spf1)] == count value)
+    nmp = 24 if not chk.thorough else 300
+    mpbad = {}
+    for mi in range(nmp):
+        s1 = rng.choice([1, 2, 3, 4]); s2 = rng.choice([1, 2, 3, 4])
+        nfr = rng.randint(2, 6)
+        cval = rng.randint(0, 2)
+        xs = [rng.randint(1, 200) for _ in range(nfr * s1)]
+        cs_ = [rng.choice([cval, cval, (cval + 1) % 3, (cval + 2) % 3]) for _ in range(nfr * s2)]
+        f0 = rng.randint(0, nfr - 1)
+        n_ = rng.randint(1, (nfr - f0) * s1)
+        new_ = [rng.randint(300, 500) for _ in range(n_)]
+        dm = os.path.join(root, "mp%d" % mi); os.mkdir(dm)
+        open(os.path.join(dm, "format"), "w").write("/ENCODING none\nx RAW INT32 %d\nc RAW INT32 %d\nm MPLEX x c %d\n" % (s1, s2, cval))
+        scm = ["open %s rw" % dm, "put x 4 0 0 %d %s" % (len(xs), gdlib.hexs(xs)), "put c 4 0 0 %d %s" % (len(cs_), gdlib.hexs(cs_)),
+               "put m 4 %d 0 %d %s" % (f0, n_, gdlib.hexs(new_)), "get x 4 0 0 %d" % (len(xs) + 2), "get c 4 0 0 %d" % (len(cs_) + 2), "close"]
+        rcm, outm = vlib.sh([exe], inp=("\n".join(scm) + "\n").encode(), timeout=60)
+        rm = outm.strip().split("\n")
+        chk.cov["evaluations"] += 1
+        want_x = list(xs)
+        for i_ in range(n_):
+            k_ = f0 * s1 + i_
+            if cs_[k_ * s2 // s1] == cval:
+                want_x[k_] = new_[i_]
+        gx = gdlib.parse_get(rm[4]) if len(rm) > 4 else None
+        gc = gdlib.parse_get(rm[5]) if len(rm) > 5 else None
+        if rcm != 0 or gx is None or gx[2] != want_x or gc is None or gc[2] != cs_:
+            mpbad.setdefault("putdata/mplex/spf%s" % ("-equal" if s1 == s2 else "-unequal"), []).append(
+                (scm, open(os.path.join(dm, "format")).read(), "x reads %s, the read formula dictates %s (index field reads %s)" % (
+                    rm[4][:160] if len(rm) > 4 else outm[-100:], gdlib.hexs(want_x), rm[5][:80] if len(rm) > 5 else "")))
+        else:
+            nontriv.add(("mplex", s1, s2, cval, tuple(want_x)))
+    for key_, l_ in sorted(mpbad.items()):
+        scm, fm_, why_ = l_[0]
+        derived_bad.append((key_, "MPLEX write-through (%d cases): %s ; script %s" % (len(l_), why_, " ; ".join(scm[1:5])[:300])))
+
     # first-order LINCOM / POLYNOM, RECIP, monotonic LINTERP (values chosen so that double arithmetic is exact)
     d2 = os.path.join(root, "der2"); os.mkdir(d2)
     open(os.path.join(d2, "format"), "w").write(
